@@ -1,0 +1,106 @@
+//! Verification seam (compiled only with `--cfg metrics_verif`): std-shaped sockets that forward to
+//! the simulated network of `metrics::__verif::net` when a simulation owns the calling thread.
+use std::io;
+use std::net::SocketAddr;
+use std::path::Path;
+use std::time::Duration;
+
+use metrics::__verif::net::backend;
+
+fn no_backend() -> io::Error {
+    io::Error::new(io::ErrorKind::Other, "no simulated network installed")
+}
+
+pub struct UdpSocket(std::sync::atomic::AtomicU64);
+
+impl UdpSocket {
+    pub fn bind<A>(_addr: A) -> io::Result<Self> {
+        Ok(UdpSocket(std::sync::atomic::AtomicU64::new(0)))
+    }
+    pub fn connect(&self, addrs: &[SocketAddr]) -> io::Result<()> {
+        let b = backend().ok_or_else(no_backend)?;
+        let ep = format!("udp://{}", addrs.first().map(|a| a.to_string()).unwrap_or_default());
+        self.0.store(b.dgram_connect(&ep)?, std::sync::atomic::Ordering::SeqCst);
+        Ok(())
+    }
+    pub fn set_write_timeout(&self, _t: Option<Duration>) -> io::Result<()> {
+        Ok(())
+    }
+    pub fn send(&self, buf: &[u8]) -> io::Result<usize> {
+        let b = backend().ok_or_else(no_backend)?;
+        match self.0.load(std::sync::atomic::Ordering::SeqCst) {
+            0 => Err(no_backend()),
+            s => b.dgram_send(s, buf),
+        }
+    }
+}
+
+impl Drop for UdpSocket {
+    fn drop(&mut self) {
+        let s = self.0.load(std::sync::atomic::Ordering::SeqCst);
+        if let (Some(b), true) = (backend(), s != 0) {
+            b.close(s);
+        }
+    }
+}
+
+pub struct UnixDatagram(std::sync::atomic::AtomicU64);
+
+impl UnixDatagram {
+    pub fn unbound() -> io::Result<Self> {
+        Ok(UnixDatagram(std::sync::atomic::AtomicU64::new(0)))
+    }
+    pub fn connect<P: AsRef<Path>>(&self, path: P) -> io::Result<()> {
+        let b = backend().ok_or_else(no_backend)?;
+        self.0.store(b.dgram_connect(&format!("unixgram://{}", path.as_ref().display()))?, std::sync::atomic::Ordering::SeqCst);
+        Ok(())
+    }
+    pub fn set_write_timeout(&self, _t: Option<Duration>) -> io::Result<()> {
+        Ok(())
+    }
+    pub fn send(&self, buf: &[u8]) -> io::Result<usize> {
+        let b = backend().ok_or_else(no_backend)?;
+        match self.0.load(std::sync::atomic::Ordering::SeqCst) {
+            0 => Err(no_backend()),
+            s => b.dgram_send(s, buf),
+        }
+    }
+}
+
+impl Drop for UnixDatagram {
+    fn drop(&mut self) {
+        let s = self.0.load(std::sync::atomic::Ordering::SeqCst);
+        if let (Some(b), true) = (backend(), s != 0) {
+            b.close(s);
+        }
+    }
+}
+
+pub struct UnixStream(u64);
+
+impl UnixStream {
+    pub fn connect<P: AsRef<Path>>(path: P) -> io::Result<Self> {
+        let b = backend().ok_or_else(no_backend)?;
+        Ok(UnixStream(b.stream_connect(&format!("unix://{}", path.as_ref().display()))?))
+    }
+    pub fn set_write_timeout(&self, _t: Option<Duration>) -> io::Result<()> {
+        Ok(())
+    }
+}
+
+impl io::Write for UnixStream {
+    fn write(&mut self, buf: &[u8]) -> io::Result<usize> {
+        backend().ok_or_else(no_backend)?.stream_write(self.0, buf)
+    }
+    fn flush(&mut self) -> io::Result<()> {
+        Ok(())
+    }
+}
+
+impl Drop for UnixStream {
+    fn drop(&mut self) {
+        if let Some(b) = backend() {
+            b.close(self.0);
+        }
+    }
+}
